@@ -238,6 +238,29 @@ impl<'a, 'tcx> Cx<'a, 'tcx> {
                             }
                         }
                     }
+                } else if let ty::Array(e, _) = inner.kind() {
+                    if *e == tcx.types.u8 {
+                        if let Ok(ConstValue::Scalar(mir::interpret::Scalar::Ptr(ptr, _))) =
+                            k.eval(tcx, self.env, c.span)
+                        {
+                            let (prov, off) = ptr.prov_and_relative_offset();
+                            if let rustc_middle::mir::interpret::GlobalAlloc::Memory(a) =
+                                tcx.global_alloc(prov.alloc_id())
+                            {
+                                let a = a.inner();
+                                let lo = off.bytes_usize();
+                                if lo <= a.len() && a.len() - lo <= 4096 {
+                                    let b = a.inspect_with_uninit_and_ptr_outside_interpreter(
+                                        lo..a.len(),
+                                    );
+                                    fields.push((
+                                        "bytes",
+                                        J::A(b.iter().map(|x| J::I(*x as i128)).collect()),
+                                    ));
+                                }
+                            }
+                        }
+                    }
                 } else if let ty::Slice(e) = inner.kind() {
                     if *e == tcx.types.u8 {
                         if let Ok(v) = k.eval(tcx, self.env, c.span) {
